@@ -217,7 +217,7 @@ def compile_level(ctx, r, n):
         progs.append(gp.make(r))
     payload = [{"id": i, "sources": {"generic": p["generic"], "copy": p["copy"]}} for i, p in enumerate(progs)]
     res = json.loads(ctx.impl("impl_compile.py", payload))
-    fails, stats = [], {"programs": len(progs), "defs_generic": 0, "instantiations": 0, "multi_instantiated_forwarders": 0}
+    fails, stats = [], {"programs": len(progs), "with_preserve_instantiations": sum(1 for p in progs if p.get("has_preserve")), "defs_generic": 0, "instantiations": 0, "multi_instantiated_forwarders": 0}
     for p, o in zip(progs, res):
         g, k = o["generic"], o["copy"]
         why = []
@@ -230,7 +230,18 @@ def compile_level(ctx, r, n):
                 why.append(f"HUGR of the generic program rejected by check_hugr: {g['valid']}")
             if k["valid"] is not True:
                 why.append(f"HUGR of the copy rejected by check_hugr: {k['valid']}")
-            if p.get("compare") != "valid-only" and g["unfold"] != k["unfold"]:
+            def strip(t):
+                return {"consts": t["consts"], "ops": t["ops"],
+                        "calls": sorted((strip(c) for c in t["calls"]), key=lambda x: json.dumps(x, sort_keys=True))}
+            gu, ku = g["unfold"], k["unfold"]
+            if p.get("has_preserve") and gu is not None and ku is not None:
+                # a type variable instantiated with None / a tuple is ONE port in the generic
+                # function but a row in the copy: pack/unpack ops legitimately differ
+                gu, ku = strip(gu), strip(ku)
+            exp_outs = p.get("expected_outs")
+            if exp_outs is not None and g["outs"] != {f: [n] for f, n in exp_outs.items() if f in g["outs"]}:
+                why.append(f"output ports of the generic functions: got {g['outs']}, the declared return types give {exp_outs}")
+            if p.get("compare") != "valid-only" and gu != ku:
                 why.append("call trees differ: some call site of the generic program targets a specialisation that loads other constants / has other ops than the copy's")
             if g["defs"] != p["expected_defs"]:
                 why.append(f"monomorphizations per function: got {g['defs']}, expected {p['expected_defs']}")
@@ -376,6 +387,19 @@ def run(ctx):
             if unknown > 2:
                 continue
         ctx.report(key, "counterexample", name, detail)
+    # ---- source tie for the hand-transcribed `_pack_returns` condition (Model.pack_returns_consumes)
+    import ast as _ast
+    want = "isinstance(return_ty, TupleType | NoneType) and (not return_ty.preserve)"
+    got = None
+    try:
+        tree = _ast.parse(ctx.int_src("compiler/expr_compiler.py").read_text())
+        fn = next(n for n in _ast.walk(tree) if isinstance(n, _ast.FunctionDef) and n.name == "_pack_returns")
+        got = _ast.unparse(next(n for n in fn.body if isinstance(n, _ast.If)).test)
+    except Exception as e:  # noqa: BLE001
+        got = f"<unreadable: {e}>"
+    if _ast.unparse(_ast.parse(want, mode="eval").body) != got and not cfails:
+        ctx.report("pack_returns-shape", "correspondence", "_pack_returns condition differs from the modelled one (Model.pack_returns_consumes)",
+                   {"modelled": want, "source": got, "compile_level_programs": cstats.get("programs")}, found_input=False)
     if not info["ok"]:
         if not law_fail and not disagreements and not cfails:
             ctx.report("proof-broken:" + str(info["failed"]), "proof-broken", str(info["failed"]),
